@@ -294,7 +294,7 @@ func rulePrune(c *Ctx, r *Report) {
 // ---- C17 / C01: enums ----------------------------------------------------------
 
 func ruleEnumLib(c *Ctx, r *Report) {
-	r.Rule("R-ENUM-LIB", "enumFieldToString treats exactly the value 0 as UNSET, every name it returns comes from a successful lookup and an unknown value is an error; castToEnumValue consults the type's own ΛMap on every call (no cache keyed by bare type name) and compares names with the module prefix stripped on both sides", 6)
+	r.Rule("R-ENUM-LIB", "enumFieldToString treats exactly the value 0 as UNSET, every name it returns comes from a successful lookup and an unknown value is an error; castToEnumValue consults the type's own ΛMap on every call (no cache keyed by bare type name) and compares names with the module prefix stripped on both sides", 5)
 	if f := c.MustFunc(r, "ygot", "enumFieldToString"); f != nil {
 		info := f.Info()
 		// unset test
@@ -771,22 +771,24 @@ func ruleRFC7951Encodings(c *Ctx, r *Report) {
 				// child module computed by prependmodsJSON (structJSON) or the parent (fake root)
 				if id, isID := arg.(*ast.Ident); isID {
 					obj := info.ObjectOf(id)
+					defs, good := 0, 0
 					ast.Inspect(f.Decl.Body, func(m ast.Node) bool {
 						if as, ok := m.(*ast.AssignStmt); ok {
 							for j, l := range as.Lhs {
 								if ObjOf(info, l) != obj {
 									continue
 								}
+								defs++
 								if len(as.Rhs) == 1 && IsCall(info, as.Rhs[0], Y+".prependmodsJSON") {
-									ok2 = true
-								}
-								if len(as.Rhs) == len(as.Lhs) && ObjOf(info, as.Rhs[j]) == pmod {
-									ok2 = true
+									good++
+								} else if len(as.Rhs) == len(as.Lhs) && ObjOf(info, as.Rhs[j]) == pmod {
+									good++
 								}
 							}
 						}
 						return true
 					})
+					ok2 = defs > 0 && defs == good
 				}
 				if v, isConst := info.Types[arg]; isConst && v.Value != nil && name != "structJSON" {
 					ok2 = false
